@@ -1794,39 +1794,54 @@ func init() {
 func ruleC17IndexRulesForArrays(c *Ctx) {
 	const rule = "C17/index-rules-for-arrays-only"
 	n := 0
-	for _, fn := range c.Closure(rule, "RES").Sorted() {
-		var atoi *ssa.Call
+	kindSubject := func(fn *ssa.Function) ssa.Value {
 		var subject ssa.Value
 		core.EachInstr(fn, func(i ssa.Instruction) {
-			if call, ok := i.(*ssa.Call); ok {
-				switch core.CalleeKey(&call.Call) {
-				case "strconv.Atoi":
-					atoi = call
-				case "reflect.Value.Kind":
-					subject = call.Call.Args[0]
-				}
+			if call, ok := i.(*ssa.Call); ok && core.CalleeKey(&call.Call) == "reflect.Value.Kind" {
+				subject = call.Call.Args[0]
 			}
 		})
-		if atoi == nil || subject == nil {
-			continue
-		}
-		seg := atoi.Call.Args[0]
+		return subject
+	}
+	for _, fn := range c.Closure(rule, "RES").Sorted() {
 		core.EachInstr(fn, func(i ssa.Instruction) {
-			var reads bool
-			switch x := i.(type) {
-			case *ssa.Index:
-				reads = x.X == seg || sharesSource(x.X, seg)
-			case *ssa.Call:
-				reads = x == atoi
+			atoi, ok := i.(*ssa.Call)
+			if !ok || core.CalleeKey(&atoi.Call) != "strconv.Atoi" {
+				return
 			}
-			if !reads {
+			// the walker: this function, or the one that calls the helper the parse sits in
+			var at ssa.Instruction = atoi
+			walker := fn
+			for hops := 0; hops < 4 && kindSubject(walker) == nil; hops++ {
+				site := soleCaller(walker)
+				if site == nil {
+					break
+				}
+				at, walker = site, site.Parent()
+			}
+			subject := kindSubject(walker)
+			if subject == nil {
 				return
 			}
 			n++
-			ks, _ := c.kindsAt(fn, subject, i)
-			c.R.Check(ks != 0 && ks.SubsetOf(Kinds(kArray, kSlice)), rule, fmt.Sprintf("%s:index-rule#%d", core.FuncName(fn), n), c.pos(i), "the token is read as an array index only where the value walked is an array or slice",
+			ks, _ := c.kindsAt(walker, subject, at)
+			c.R.Check(ks != 0 && ks.SubsetOf(Kinds(kArray, kSlice)), rule, fmt.Sprintf("%s:index-rule#%d", core.FuncName(fn), n), c.pos(at), "the token is read as an array index only where the value walked is an array or slice",
 				fmt.Sprintf("a token of the pointer is examined as an array index (its characters, or its value as a number) where the value walked can have kind %s: a key of a map of schemas that looks like a number with a leading zero (\"007\", \"01\") is refused although it names a subschema", ks))
+			// the other index rules (leading zero ...) read characters of the same token in the walker itself
+			if walker == fn {
+				seg := atoi.Call.Args[0]
+				core.EachInstr(fn, func(j ssa.Instruction) {
+					ix, ok := j.(*ssa.Index)
+					if !ok || !(ix.X == seg || sharesSource(ix.X, seg)) {
+						return
+					}
+					n++
+					ks, _ := c.kindsAt(fn, subject, j)
+					c.R.Check(ks != 0 && ks.SubsetOf(Kinds(kArray, kSlice)), rule, fmt.Sprintf("%s:index-rule#%d", core.FuncName(fn), n), c.pos(j), "the token is read as an array index only where the value walked is an array or slice",
+						fmt.Sprintf("a character of a pointer token is examined under the rules for array indexes where the value walked can have kind %s: a key of a map of schemas such as \"007\" or \"01\" is refused although it names a subschema", ks))
+				})
+			}
 		})
 	}
-	c.R.Floor(rule, "readings of a pointer token as an array index", n, 2)
+	c.R.Floor(rule, "readings of a pointer token as an array index", n, 1)
 }
